@@ -14,7 +14,8 @@
       stored under it before it is returned (frozen exception: the unary functors do not cache
       internal nodes, by design)
   C6  classifyCase: operand k is branched iff it is internal and every other operand is a leaf or has
-      a variable <= its own (`>=`, not `>`: equal variables branch together)."""
+      a variable <= its own (`>=`, not `>`: equal variables branch together)
+  C7  equality of two handles is identity of their roots and reads nothing else"""
 import re
 from vfacts import strip, walk, method_name, must_pass_through, known_facts, is_node
 from .prov import var_table, local_sources
@@ -128,6 +129,37 @@ def run(unit, em):
         if name == 'classifyCase2':
             em.anchor(fn, 'classifyCase2')
         cfg = fn.cfg()
+        # ---- C7 equality is root identity: the verdict of operator== / != of the handle class reads the roots and nothing else
+        if cls == 'OndriksMTBDD' and name in ('operator==', 'operator!=') and len(fn.params) == 1:
+            extra = []
+            roots = 0
+            for r in fn.walk():
+                e = None
+                if r['k'] == 'ReturnStmt':
+                    e = (r.get('ch') or [None])[0]
+                elif r['k'] in ('IfStmt', 'ConditionalOperator'):
+                    e = r.get('c') if r['k'] == 'IfStmt' else r['ch'][0]
+                if not is_node(e):
+                    continue
+                for x in walk(e):
+                    if x['k'] == 'MemberExpr' and x.get('dk', 'field') == 'field':
+                        if x.get('n') == 'root_':
+                            roots += 1
+                        else:
+                            extra.append(x)
+                    elif x['k'] == 'CXXMemberCallExpr' and (x.get('q') or '').startswith('VATA::MTBDDPkg::OndriksMTBDD::'):
+                        m = method_name(x)
+                        if m in ('getRoot', 'operator==', 'operator!='):
+                            roots += 1
+                        else:
+                            extra.append(x)
+            if extra:
+                em.violation(extra[0], 'OndriksMTBDD::%s' % name, 'the verdict also reads %s: nodes are hash-consed, so two handles denote the same function exactly when their roots are identical; '
+                             'anything else that enters the comparison (the default value is bookkeeping of how the diagram was built) makes equal functions compare unequal' % unit.text(extra[0], 40), 'C7')
+            elif roots:
+                em.ok(fn, 'OndriksMTBDD::%s' % name, 'the verdict is a comparison of the roots only', 'C7')
+            else:
+                em.violation(fn, 'OndriksMTBDD::%s' % name, 'the verdict does not compare the roots', 'C7')
         # ---- C1
         for c in fn.calls():
             cn = cname(c)
